@@ -39,7 +39,8 @@ def strategy(tier):
                                   extra_actions=stoch.stoch_actions(with_stats=True, reinit=True, cancel_old=True))
     seeds = st.lists(st.one_of(st.integers(0, 50), st.integers()), min_size=1, max_size=3)
     return st.fixed_dictionaries({
-        "prog": prog, "seeds": seeds, "n_initial": st.integers(0, 2), "reuse_streams": st.sampled_from([False, False, True, "updater"]),
+        "prog": prog, "seeds": seeds, "n_initial": st.integers(0, 2), "reuse_streams": st.sampled_from([False, False, True, "updater", "simple"]),
+        "container_model": st.sampled_from([False, False, True]),
         "long_lived_producers": st.sampled_from([False, False, False, True, True]),
         "two_types": st.booleans(),
         "same_rep_object": st.booleans(),
@@ -61,6 +62,8 @@ def _add_initial(h, n):
 
 def _fresh_run(prog, seeds, n_initial=0, reuse=False, llp=False, case=None):
     case = case or {}
+    if case.get("container_model"):
+        prog = dict(prog, container_model=True)
     h = Harness(prog)
     stoch.install(h.model, seeds, reuse_streams=reuse, long_lived_producers=llp,
                   two_types=bool(case.get("two_types")))
@@ -158,6 +161,9 @@ def run_case(case):
     if leaked:
         out.fail("thread-leak", "fresh run")
 
+    if case.get("container_model"):
+        prog = dict(prog, container_model=True)        # a model class with __len__ == 0 (falsy object)
+        out.label("model-with-__len__")
     h = Harness(prog)
     prior_seeds = case["seeds"] if pr.get("same_seeds") else pr["seeds"]
     if pr.get("same_seeds"):
